@@ -84,7 +84,7 @@ CHECKS["C01"] = {
     "required_classes": {"all": ["history:nontrivial(update-or-readd + stale probe + near-miss probe)", "config:loaded-from-yaml",
                                  "nearmiss-expected-equal(scrypt key equivalence)"]},
     "jobs": [
-        J("history", VSTORE, "TestC01History", {"shards": 8, "checks": 400}, {"shards": 16, "checks": 5000}),
+        J("history", VSTORE, "TestC01History", {"shards": 8, "checks": 400}, {"shards": 16, "checks": 20000}),
     ],
 }
 
@@ -104,7 +104,7 @@ CHECKS["C02"] = {
     "assumptions": ["AMBIGUOUS spellings (whitespace, sign, padding, alphabet, control bytes) are only held to the only-if oracle and list/list-full consistency"],
     "required_classes": {"all": ["class:VALID", "class:CLEARLY-INVALID", "class:AMBIGUOUS-OR-NEAR-VALID", "kind:bitflip", "kind:bytes-truncate"]},
     "jobs": [
-        J("hashfile", VSTORE, "TestC02HashFile", {"shards": 8, "checks": 500}, {"shards": 16, "checks": 20000}),
+        J("hashfile", VSTORE, "TestC02HashFile", {"shards": 8, "checks": 500}, {"shards": 16, "checks": 100000}),
     ],
 }
 
@@ -123,7 +123,7 @@ CHECKS["C14"] = {
     "assumptions": [],
     "required_classes": {"all": ["write:update-with-unchanged-password", "record-aged-before-next-write", "write:hmac_sha256_scrypt:override-rp", "write:hmac_sha256_scrypt:default-rp", "write:argon2id:threads>1", "salts-compared-across-processes"]},
     "jobs": [
-        J("records", VSTORE, "TestC14Records|TestC14SaltSpread", {"shards": 8, "checks": 150}, {"shards": 16, "checks": 4000}),
+        J("records", VSTORE, "TestC14Records|TestC14SaltSpread", {"shards": 8, "checks": 150}, {"shards": 16, "checks": 30000}),
         J("saltxproc", VSTORE, "TestC14SaltAcrossProcesses", {"shards": 1, "n": 4}, {"shards": 1, "n": 16}, rapid=False),
     ],
 }
@@ -144,8 +144,8 @@ CHECKS["C16"] = {
     "assumptions": ["directory contents are built from schema-valid user names (the property's quantifier); invalid names are C03"],
     "required_classes": {"all": ["reason:both-extensions", "reason:foreign-entry", "reason:no-supported-admin", "reason:base-missing", "check:valid=true", "init:succeeded", "init:refused"]},
     "jobs": [
-        J("checkexact", VSTORE, "TestC16CheckExact", {"shards": 6, "checks": 400}, {"shards": 16, "checks": 8000}),
-        J("histories", VSTORE, "TestC16Histories", {"shards": 6, "checks": 100}, {"shards": 16, "checks": 2000}),
+        J("checkexact", VSTORE, "TestC16CheckExact", {"shards": 6, "checks": 400}, {"shards": 16, "checks": 40000}),
+        J("histories", VSTORE, "TestC16Histories", {"shards": 6, "checks": 100}, {"shards": 16, "checks": 10000}),
     ],
 }
 
@@ -230,7 +230,7 @@ CHECKS["C12"] = {
     "assumptions": ["remote master is an in-process agent instance reached through a stub RoundTripper"],
     "required_classes": {"all": ["login:password-with-invalid-utf8", "work-area-unusable(.tmp is a regular file)", "login:right-password-on-upgradeable-record-with-aux", "upgrade-performed:local", "upgrade-performed:master", "mode:", "mode:remote-unreachable"]},
     "jobs": [
-        J("upgrades", AGENT, "TestC12Upgrades", {"shards": 8, "checks": 60}, {"shards": 16, "checks": 3000}, toolchain="go126"),
+        J("upgrades", AGENT, "TestC12Upgrades", {"shards": 8, "checks": 60}, {"shards": 16, "checks": 30000}, toolchain="go126"),
     ],
 }
 
@@ -272,7 +272,7 @@ CHECKS["C06"] = {
     "assumptions": ["admin tokens stay admin after demotion/removal until they expire: the statement says 'administrator at login'"],
     "required_classes": {"all": ["composite:right-and-wrong-logins-in-flight-together", "composite:token-used-then-replayed-after-expiry", "composite:field-omitted-right-after-a-successful-request", "request:well-formed-credential-insufficient-or-self-rule", "cred:expired-aged", "cred:other-instance", "cred:tampered", "cred:both", "shape:dup-keys", "effect:200:add", "effect:200:update", "login:token-issued"]},
     "jobs": [
-        J("webapi", AGENT, "TestC06WebAPI", {"shards": 8, "checks": 60}, {"shards": 16, "checks": 3000}, toolchain="go126"),
+        J("webapi", AGENT, "TestC06WebAPI", {"shards": 8, "checks": 60}, {"shards": 16, "checks": 30000}, toolchain="go126"),
     ],
 }
 
@@ -292,7 +292,7 @@ CHECKS["C17"] = {
     "assumptions": [],
     "required_classes": {"all": ["write:policy-failing-password-refused", "write:policy-satisfying-password", "edge:within-1-of-threshold", "path:api-update-oldpw", "path:api-update-own", "policy-string:valid=false"]},
     "jobs": [
-        J("policy", AGENT, "TestC17Policy", {"shards": 8, "checks": 60}, {"shards": 16, "checks": 3000}, toolchain="go126"),
+        J("policy", AGENT, "TestC17Policy", {"shards": 8, "checks": 60}, {"shards": 16, "checks": 10000}, toolchain="go126"),
         J("strings", AGENT, "TestC17PolicyStrings", {"shards": 1}, toolchain="go126", rapid=False),
     ],
 }
@@ -313,7 +313,7 @@ CHECKS["C03"] = {
     "assumptions": [],
     "required_classes": {"all": ["missing-base:removed", "missing-base:parent-missing", "traced-invalid-name", "name:resolves-to-existing-credential-file", "nameclass:traversal", "nameclass:alias", "nameclass:absolute", "nameclass:control", "invalid-named-file:only-admin=true"]},
     "jobs": [
-        J("names", VSTORE, "TestC03Names", {"shards": 8, "checks": 300}, {"shards": 16, "checks": 6000}),
+        J("names", VSTORE, "TestC03Names", {"shards": 8, "checks": 300}, {"shards": 16, "checks": 30000}),
         J("files", VSTORE, "TestC03InvalidNamedFiles", {"shards": 2, "checks": 200}, {"shards": 8, "checks": 3000}),
         J("missingbase", VSTORE, "TestC03MissingBase", {"shards": 2, "checks": 150}, {"shards": 8, "checks": 2000}),
         J("frontends", AGENT, "TestC03Frontends", {"shards": 4, "checks": 80}, {"shards": 16, "checks": 2000}, toolchain="go126"),
@@ -380,7 +380,7 @@ CHECKS["C18"] = {
     "assumptions": [],
     "required_classes": {"all": ["doc:valid", "doc:invalid", "doc:unspecified", "accepted-set:hashes-and-verifies", "mutation:argon-zero", "mutation:id-zero", "mutation:unknown-alg-key"]},
     "jobs": [
-        J("loader", VSTORE, "TestC18Loader", {"shards": 6, "checks": 500}, {"shards": 16, "checks": 20000}),
+        J("loader", VSTORE, "TestC18Loader", {"shards": 6, "checks": 500}, {"shards": 16, "checks": 60000}),
     ],
 }
 
@@ -407,7 +407,7 @@ CHECKS["C08"] = {
     "assumptions": ["persistence model: file data durable after fsync(file), entry changes after fsync(directory); rename is atomic; a cross-directory rename's removal is never durable without its arrival"],
     "required_classes": {"all": ["image-state:old", "image-state:new", "image-state:absent", "image-state:empty", "op:update", "op:add", "op:init", "aux:big300k"]},
     "jobs": [
-        J("crash", VTRACE, "TestC08CrashAtomicity", {"shards": 8, "checks": 12}, {"shards": 16, "checks": 400}),
+        J("crash", VTRACE, "TestC08CrashAtomicity", {"shards": 8, "checks": 12}, {"shards": 16, "checks": 4000}),
     ],
 }
 
@@ -427,7 +427,7 @@ CHECKS["C09"] = {
     "assumptions": ["same persistence model as C08"],
     "required_classes": {"all": ["acked:setadmin", "acked:remove", "acked:add", "acked:update", "acked:init"]},
     "jobs": [
-        J("durability", VTRACE, "TestC09Durability", {"shards": 8, "checks": 15}, {"shards": 16, "checks": 500}),
+        J("durability", VTRACE, "TestC09Durability", {"shards": 8, "checks": 15}, {"shards": 16, "checks": 5000}),
     ],
 }
 
@@ -450,7 +450,7 @@ CHECKS["C15"] = {
     "jobs": [
         J("untouched", VSTORE, "TestC15Untouched", {"shards": 6, "checks": 100}, {"shards": 16, "checks": 3000}),
         J("readonly", VTRACE, "TestC15ReadOnlyTrace", {"shards": 2, "checks": 25}, {"shards": 8, "checks": 600}),
-        J("faults", VTRACE, "TestC15FaultInjection", {"shards": 10, "checks": 2}, {"shards": 20, "checks": 50}),
+        J("faults", VTRACE, "TestC15FaultInjection", {"shards": 10, "checks": 2}, {"shards": 20, "checks": 150}),
     ],
 }
 
